@@ -69,6 +69,11 @@ class Arr(NdArr):
             return out
         return v
 
+    def __neg__(self):
+        out = type(self)(self.a.shape)
+        out.a = -self.a
+        return out
+
 
 def _conc(*xs):
     def ok(x):
